@@ -1,6 +1,7 @@
 package main
 
 import (
+	"go/token"
 	"fmt"
 	"go/types"
 	"sort"
@@ -10,7 +11,7 @@ import (
 )
 
 func init() {
-	register("GLOBALS", "effect analysis: outside the package initializer and the registration API (AddScalarFunction, AddAggrFunction) no function stores to a package-level variable, updates/deletes in a map reachable from one, or stores through a *Function/*AggrFunc registry row it did not allocate itself; the library starts no goroutine and declares no sync-less package cache", ruleGlobals)
+	register("GLOBALS", "effect analysis: outside the package initializer and the registration API (AddScalarFunction, AddAggrFunction) no function stores to a package-level variable, updates/deletes in a map reachable from one, or stores through a *Function/*AggrFunc registry row it did not allocate itself; a reference (pointer, map, slice, interface) loaded from a package variable in a statement path is only read in place (looked up, indexed, ranged, measured, compared), never passed to a call, used as a receiver, appended to, stored or returned; the library starts no goroutine and declares no sync-less package cache", ruleGlobals)
 }
 
 var globalsAllowedWriters = map[string]string{
@@ -169,6 +170,150 @@ func ruleGlobals(p *Prog, r *Result) {
 			}
 		})
 	}
+	// escape clause: a reference (pointer, map, slice, interface, func, chan) loaded from a package
+	// variable in a statement path is only read in place: looked up, indexed, ranged, measured,
+	// compared, or - for registry rows - dereferenced for field reads and calls of its function
+	// fields. It is never passed to a call, used as a receiver, re-sliced and appended to, stored,
+	// or returned: whoever receives it could write shared state that two statements see.
+	isRef := func(t types.Type) bool {
+		switch t.Underlying().(type) {
+		case *types.Pointer, *types.Map, *types.Slice, *types.Interface, *types.Signature, *types.Chan:
+			return true
+		}
+		return false
+	}
+	nLoads := 0
+	for _, fn := range p.Funcs {
+		root := fn
+		for root.Parent() != nil {
+			root = root.Parent()
+		}
+		if _, ok := globalsAllowedWriters[p.FName(root)]; ok && root.Signature.Recv() == nil {
+			continue
+		}
+		if root.Signature.Recv() == nil && (root.Name() == "init" || strings.HasPrefix(root.Name(), "init#")) {
+			continue
+		}
+		idx := 0
+		allInstrs(fn, func(in ssa.Instruction) {
+			ld, ok := in.(*ssa.UnOp)
+			if !ok || ld.Op != token.MUL || !isGlobal(ld.X) || !isRef(ld.Type()) {
+				return
+			}
+			nLoads++
+			idx++
+			g := ld.X.(*ssa.Global)
+			key := fmt.Sprintf("%s|load of %s#%d", p.FName(fn), g.Name(), idx)
+			bad := ""
+			seen := map[ssa.Value]bool{}
+			var walk func(v ssa.Value, row bool)
+			walk = func(v ssa.Value, row bool) {
+				if seen[v] || bad != "" {
+					return
+				}
+				seen[v] = true
+				refs := v.Referrers()
+				if refs == nil {
+					return
+				}
+				if n := namedOf(v.Type()); n != nil && rowTypes[n.Obj().Name()] {
+					if _, isPtr := v.Type().Underlying().(*types.Pointer); isPtr {
+						// a registry row: wherever it travels inside the package, the write clause
+						// (no store through a row the function did not allocate) covers it
+						return
+					}
+				}
+				for _, u := range *refs {
+					switch x := u.(type) {
+					case *ssa.Lookup:
+						if x.X == v {
+							// element of a package-level map: a registry row pointer stays shared
+							if isRef(x.Type()) || isTupleWithRef(x.Type()) {
+								walk(x, true)
+							}
+						}
+					case *ssa.Extract:
+						if isRef(x.Type()) {
+							walk(x, row)
+						}
+					case *ssa.Index, *ssa.Range, *ssa.Next:
+						// read in place
+					case *ssa.IndexAddr:
+						// element address: loads are reads; stores were reported by the write clause
+						for _, u2 := range *x.Referrers() {
+							if l2, ok := u2.(*ssa.UnOp); ok && isRef(l2.Type()) {
+								walk(l2, row)
+							}
+						}
+					case *ssa.FieldAddr:
+						for _, u2 := range *x.Referrers() {
+							switch y := u2.(type) {
+							case *ssa.UnOp:
+								// reading a field of a shared row: function-valued fields may be called, other references stay shared
+								if _, isFn := y.Type().Underlying().(*types.Signature); isFn {
+									for _, u3 := range *y.Referrers() {
+										if c, ok := u3.(ssa.CallInstruction); ok && c.Common().Value == ssa.Value(y) {
+											continue
+										}
+										if _, ok := u3.(*ssa.BinOp); ok {
+											continue
+										}
+										bad = fmt.Sprintf("a function value read from shared package state escapes at %s", p.InstrPos(u3))
+									}
+								} else if isRef(y.Type()) {
+									walk(y, row)
+								}
+							case *ssa.Store:
+								// reported by the write clause
+							default:
+								bad = fmt.Sprintf("the address of a field of shared package state escapes at %s", p.InstrPos(u2))
+							}
+						}
+					case *ssa.BinOp:
+						// comparison with nil
+					case *ssa.Phi:
+						walk(x, row)
+					case *ssa.ChangeType:
+						walk(x, row)
+					case *ssa.MakeInterface, *ssa.ChangeInterface:
+						bad = fmt.Sprintf("shared package state is boxed into an interface at %s", p.InstrPos(u))
+					case *ssa.Slice:
+						walk(x, row)
+					case *ssa.UnOp:
+						// dereference of a shared pointer: a value copy
+					case *ssa.If:
+					case *ssa.DebugRef:
+					case ssa.CallInstruction:
+						c := x.Common()
+						if b, isB := c.Value.(*ssa.Builtin); isB && (b.Name() == "len" || b.Name() == "cap") {
+							continue
+						}
+						if b, isB := c.Value.(*ssa.Builtin); isB && (b.Name() == "delete" || b.Name() == "clear") {
+							continue // reported by the write clause
+						}
+						bad = fmt.Sprintf("a reference loaded from package variable %s is handed to %s at %s: the callee can write state shared by all statements", g.Name(), callDesc(p, x), p.InstrPos(u))
+					case *ssa.Store:
+						if x.Val == v {
+							bad = fmt.Sprintf("a reference loaded from package variable %s is stored at %s", g.Name(), p.InstrPos(u))
+						}
+					case *ssa.Return:
+						bad = fmt.Sprintf("a reference loaded from package variable %s is returned at %s", g.Name(), p.InstrPos(u))
+					case *ssa.MapUpdate:
+						if x.Map != v {
+							bad = fmt.Sprintf("a reference loaded from package variable %s is stored into a map at %s", g.Name(), p.InstrPos(u))
+						}
+					case *ssa.TypeAssert:
+						walk(x, row)
+					default:
+						bad = fmt.Sprintf("a reference loaded from package variable %s is used by %T at %s", g.Name(), u, p.InstrPos(u))
+					}
+				}
+			}
+			walk(ld, false)
+			r.add(bad == "", key, p.InstrPos(ld), firstNonEmpty(bad, "the loaded reference is only read in place"))
+		})
+	}
+	r.note("reference_loads_of_package_variables_in_statement_paths", nLoads)
 	r.note("writes_per_function", perFn)
 	// every global must have at least its initialising store in init (sanity: the rule sees writes)
 	r.floor("writes to package state seen (all in allowed writers)", nWrites, 5)
@@ -202,4 +347,18 @@ func derivesThroughLoad(v ssa.Value) bool {
 			return false
 		}
 	}
+}
+
+func isTupleWithRef(t types.Type) bool {
+	tup, ok := t.(*types.Tuple)
+	if !ok {
+		return false
+	}
+	for i := 0; i < tup.Len(); i++ {
+		switch tup.At(i).Type().Underlying().(type) {
+		case *types.Pointer, *types.Map, *types.Slice, *types.Interface, *types.Signature, *types.Chan:
+			return true
+		}
+	}
+	return false
 }
